@@ -934,11 +934,39 @@ class Session:
     def _target_path(self, st, lane):
         """absolute path of the target, or (relative: true) the path relative to the driver's cwd"""
         p = self.ext_path(st["target"])
+        # the same file named through another spelling: prefix (a lexically clean directory) + tail
+        d, name = os.path.split(p)
+        sp = st.get("spelling") or "plain"
+        hop = os.path.join(os.path.dirname(self.extdir), "hops")
+        sub = os.path.join(d, "sub.d")
+        if sp != "plain":
+            os.makedirs(hop, exist_ok=True)
+            os.makedirs(sub, exist_ok=True)
+        if sp == "dot":
+            prefix, tail = d, "./" + name
+        elif sp == "slashes":
+            prefix, tail = d, "/" + name                      # d//name
+        elif sp == "dotdot_real":
+            prefix, tail = d, "sub.d/../" + name
+        elif sp == "dotdot_symlink":
+            # alias -> <ext>/sub.d : the kernel resolves alias/.. to <ext>, folding the text
+            # "alias/.." away lexically would name <hops>/name instead
+            a = os.path.join(hop, "alias")
+            if not os.path.islink(a):
+                os.symlink(sub, a)
+            prefix, tail = hop, "alias/../" + name
+        elif sp == "symlink_dir":
+            a = os.path.join(hop, "ext-alias")
+            if not os.path.islink(a):
+                os.symlink(d, a)
+            prefix, tail = hop, "ext-alias/" + name
+        else:
+            prefix, tail = d, name
         if st.get("relative"):
             cwd = self.cwd.get(LANES[lane][0])
             if cwd:
-                return os.path.relpath(p, cwd)
-        return p
+                return os.path.relpath(prefix, cwd) + "/" + tail
+        return prefix + "/" + tail
 
     def _do_link_to(self, st, lane):
         keyed = "key" in st
@@ -1184,6 +1212,17 @@ def run_program(sess, prog, on_step=None):
                     f.write(b"not a directory")
             elif act == "root_gone":
                 shutil.rmtree(sess.root, ignore_errors=True)
+            elif act == "stray":
+                # a file that is no key's bucket under index-v5 (abstractly: Cacache!EnvStray)
+                bp = os.path.relpath(sess.bucket_path(st["key"]), os.path.join(sess.root, "index-v5")).split(os.sep)
+                where = {"top": [], "prefix": bp[:1], "leaf": bp[:2]}[st["where"]]
+                dp = os.path.join(sess.root, "index-v5", *where)
+                os.makedirs(dp, exist_ok=True)
+                with open(os.path.join(dp, st["name"]), "wb") as f:
+                    f.write(bytes(st.get("bytes", [])))
+                sess.trace.append({"ev": "env", "op": {"op": "env_stray"}})
+                results.append(None)
+                continue
             elif act == "bucket_fifo_like_empty":
                 bp = sess.bucket_path(st["key"])
                 os.makedirs(os.path.dirname(bp), exist_ok=True)
